@@ -159,12 +159,59 @@ class Run:
                 self.acc.merge(acc)
                 rets.append(ret)
         else:
-            ctx = mp.get_context('fork')
-            with ctx.Pool(min(NPROC, len(chunks))) as pool:
-                for acc, ret in pool.imap(_call, [(key, c) for c in chunks]):
-                    self.acc.merge(acc)
-                    rets.append(ret)
+            rets = self._pool_map(key, chunks)
         return rets if collect else None
+
+    def _pool_map(self, key, chunks):
+        """fork pool that survives a worker killed by a signal (a crashing native kernel of the library under
+        test must become a violation with the offending case, not a hang)"""
+        from concurrent.futures import ProcessPoolExecutor
+        from concurrent.futures.process import BrokenProcessPool
+        ctx = mp.get_context('fork')
+        results = [None] * len(chunks)
+        pending = list(range(len(chunks)))
+        try:
+            with ProcessPoolExecutor(max_workers=min(NPROC, len(chunks)), mp_context=ctx) as ex:
+                futs = {i: ex.submit(_call, (key, chunks[i])) for i in pending}
+                for i in list(pending):
+                    results[i] = futs[i].result()
+                    pending.remove(i)
+        except BrokenProcessPool:
+            pass
+        # a worker died: re-run what is missing, one process per chunk, then one per item to find the culprit
+        for i in list(pending):
+            got = self._isolated(key, chunks[i])
+            if got is not None:
+                results[i] = got
+                continue
+            accs = Acc()
+            rets_i = []
+            for item in chunks[i]:
+                one = self._isolated(key, [item])
+                if one is None:
+                    accs.violation('process-killed', 'the interpreter running this case was killed by a signal '
+                                   '(crash in native code of the library under test)', item)
+                else:
+                    accs.merge(one[0])
+                    if one[1]:
+                        rets_i += list(one[1]) if isinstance(one[1], (list, tuple)) else [one[1]]
+            results[i] = (accs, rets_i or None)
+            self.cap('a worker process was killed while running chunk %d; its cases were re-run one by one' % i)
+        out = []
+        for acc, ret in results:
+            self.acc.merge(acc)
+            out.append(ret)
+        return out
+
+    @staticmethod
+    def _isolated(key, chunk):
+        from concurrent.futures import ProcessPoolExecutor
+        from concurrent.futures.process import BrokenProcessPool
+        try:
+            with ProcessPoolExecutor(max_workers=1, mp_context=mp.get_context('fork')) as ex:
+                return ex.submit(_call, (key, chunk)).result()
+        except BrokenProcessPool:
+            return None
 
     def cap(self, what):
         self.exhaustive = False
@@ -187,6 +234,10 @@ class Run:
                 known_hit.append((f, sig, n))
                 continue
             new.append((sig, n, ex))
+        if new:
+            # vacuity guards are only meaningful on a run without violations: a violated clause may
+            # legitimately never reach its "passed" counter
+            harness.pop('HARNESS-VACUOUS', None)
         rc = 0
         for f, sig, n in known_hit:
             lines.append('KNOWN-FINDING: property=%s %s [sig=%s, %d case(s) this run]'
